@@ -412,6 +412,23 @@ func init() {
 						}
 					}
 				}
+				if i%6 == 4 {
+					// a rule line whose length is exactly a multiple of the 4 KiB read block of file-backed lists (and one
+					// byte less / more), with lines after it: the rule is read back by its index at the first match
+					for _, n := range []int{Pick(g, []int{4096, 8192, 12288}), Pick(g, []int{4095, 4097, 8191, 8193})} {
+						tag := fmt.Sprintf("blockline%d", n)
+						l := "||" + tag + ".test^$domain=page.example"
+						for k := 0; len(l) < n-40; k++ {
+							l += fmt.Sprintf("|d%04d.example", k)
+						}
+						l += "|" + strings.Repeat("x", n-len(l)-9) + ".example"
+						at := g.Intn(len(ls))
+						ls[at].content = l + "\n||after-" + tag + ".test^\n" + ls[at].content
+						reqs = append(reqs, Req{Kind: "url", URL: "http://" + tag + ".test/x", Source: "https://page.example/", Type: 4},
+							Req{Kind: "url", URL: "http://after-" + tag + ".test/x", Source: "https://d0001.example/", Type: 4},
+							Req{Kind: "url", URL: "http://" + tag + ".test/y", Source: "https://sub.d0003.example/", Type: 2})
+					}
+				}
 				emit("engine\t" + encodeStorage(ls) + "\t" + encodeReqs(reqs))
 				// lower-cased request strings longer than 4096 bytes whose only occurrence of a rule's window is at the very
 				// end: hostname requests are never capped, and lower-casing lengthens some code points and every invalid
@@ -476,6 +493,9 @@ func init() {
 			reqs := decodeReqs(f[2])
 			s := stringStorage(ls)
 			e := urlfilter.NewNetworkEngine(s)
+			// the same lists as files: the engine reads rules back from the file by their indexes
+			fh := newHistEngines(ls, true)
+			defer fh.cleanup()
 			// the property's own oracle: every network rule of the storage, matched one by one
 			var allRules []*rules.NetworkRule
 			sc := s.NewRuleStorageScanner()
@@ -502,6 +522,9 @@ func init() {
 				}
 				if w := sortedSet(want); w != got && flags == "" {
 					flags = "!ENGINE-DIFFERS-FROM-LINEAR-SCAN:request=" + hx(rq.Encode())
+				}
+				if fgot := sortedMulti(matchAllTexts(fh.ne.MatchAll(buildRequest(rq)))); fgot != sortedMulti(gotTexts) && flags == "" {
+					flags = "!FILE-BACKED-ENGINE-DIFFERS-FROM-LINEAR-SCAN:request=" + hx(rq.Encode())
 				}
 				if got != "" {
 					hits++
@@ -582,6 +605,20 @@ func init() {
 					nm := Pick(g, []string{"b\u00fccher.example", "m\u00fcller-ads.example", "\u043f\u0440\u0438\u043c\u0435\u0440.\u0440\u0444", "caf\u00e9.fr", "\u00fc.de"})
 					ls[0].content += Pick(g, []string{"||", "@@||"}) + nm + "^" + Pick(g, []string{"", "$important", "$dnstype=A"}) + "\n" + Pick(g, hostsIPs) + " " + nm + "\n"
 					reqs = append(reqs, Req{Kind: "host", Hostname: nm}, Req{Kind: "host", Hostname: "www." + nm, DNSType: 1})
+				}
+				if i%20 == 13 {
+					// hundreds of rules with ONE five-byte shortcut (per-client rules for one short name), plus a hosts entry
+					// for it: every one of them is found, however many share the bucket
+					nm := Pick(g, []string{"q9.io", "x.com", "ab.de"})
+					n := 258 + g.Intn(60)
+					var sb strings.Builder
+					for k := 0; k < n; k++ {
+						fmt.Fprintf(&sb, "||%s^$client=10.0.%d.%d\n", nm, k/250, k%250+1)
+					}
+					ls[0].content += sb.String() + "1.2.3.4 " + nm + "\n"
+					for _, k := range []int{0, 100, 254, 255, 256, 257, n - 2, n - 1, n} {
+						reqs = append(reqs, Req{Kind: "host", Hostname: nm, ClientIP: fmt.Sprintf("10.0.%d.%d", k/250, k%250+1)})
+					}
 				}
 				for _, nm := range []string{"xn--e1afmkfd.p2p", "xn--80ak6aa92e.i2p", "xn--e1afmkfd.example.1337", "www.xn--e1afmkfd.p2p"} {
 					if strings.Contains(ls[0].content+ls[len(ls)-1].content, strings.TrimPrefix(nm, "www.")) {
@@ -781,6 +818,28 @@ func init() {
 					}
 					ls[0].content = pair[0] + "\n" + ls[0].content + "\n" + pair[1] + "\n"
 					emit(encodeStorage(ls) + "\t" + encList(append([]string{sub, d, "x." + sub}, cosHosts...)))
+					continue
+				}
+				if g.Chance(1, 8) {
+					// several exceptions with one selector whose domains are nested, the outer one EXCLUDING a name below the
+					// inner one's domain (d,~x.s.d then s.d — and the other way round): below the exclusion only the inner one
+					// applies; every exception is its own rule, none makes another redundant
+					d := Pick(g, []string{"example.org", "example.com"})
+					sd := "sub." + d
+					xd := "a." + sd
+					selx := Pick(g, []string{".banner", ".promo", "#top"})
+					e1 := d + ",~" + xd + "#@#" + selx
+					e2 := Pick(g, []string{sd, sd, sd + ",other.net", xd}) + "#@#" + selx
+					if g.Chance(1, 3) {
+						e1, e2 = e2, e1
+					}
+					rule := Pick(g, []string{"##" + selx, d + "##" + selx, sd + "##" + selx, "~other.net##" + selx})
+					parts := []string{e1, e2, rule}
+					if g.Bool() {
+						parts = []string{rule, e1, e2}
+					}
+					ls[0].content = parts[0] + "\n" + parts[1] + "\n" + ls[0].content + "\n" + parts[2] + "\n"
+					emit(encodeStorage(ls) + "\t" + encList(append([]string{xd, "deep." + xd, sd, d, "b." + sd}, cosHosts...)))
 					continue
 				}
 				emit(encodeStorage(ls) + "\t" + encList(cosHosts))
